@@ -77,6 +77,36 @@ def judge(req, expected_text, j, ae, compression, threshold):
     return out
 
 
+def judge_ack(req, ae, compression, threshold, want_plain):
+    """The body-less acknowledgements (POST 'OK', OPTIONS) go through the same compression step."""
+    if req.exc or not req.done:
+        return [('exception_escaped', 'request raised / unanswered: %r' % (req.exc,))]
+    ces = req.headers_all('Content-Encoding')
+    body = req.body or b''
+    if len(ces) > 1:
+        return [('multiple_encodings', 'Content-Encoding %r' % ces)]
+    out = []
+    if ces:
+        enc = ces[0]
+        try:
+            plain = gzip.decompress(body) if enc == 'gzip' else zlib.decompress(body) if enc == 'deflate' else None
+        except Exception as e:
+            return [('declared_encoding_wrong', 'body %r does not decode as declared %r: %r' % (body[:20], enc, e))]
+        if plain is None:
+            return [('unknown_encoding_declared', 'Content-Encoding %r' % enc)]
+        if not offered(ae, enc):
+            out.append(('encoding_not_offered', 'declared %r, Accept-Encoding was %r' % (enc, ae)))
+        if not compression:
+            out.append(('compressed_though_disabled', 'declared %r with http_compression=False' % enc))
+        if len(plain) < threshold:
+            out.append(('compressed_below_threshold', 'declared %r for %d bytes, threshold %d' % (enc, len(plain), threshold)))
+    else:
+        plain = body
+    if want_plain is not None and plain != want_plain:
+        out.append(('payload_altered', 'acknowledgement body %r, want %r' % (plain[:20], want_plain)))
+    return out
+
+
 def run_group(group, out):
     """group: dict(impl, compression, threshold(s) spec, cases=[(payloads, j, ae)])."""
     impl = group['impl']
@@ -108,6 +138,16 @@ def run_group(group, out):
                      'case': [payloads, j, ae]}, weight=(0, sum(len(x) for x in payloads))))
             if not g.done:
                 break
+            if j is None:
+                for what, req in (('POST', peer.post(w, sid, '4x', headers=hdr)), ('OPTIONS', w.http('OPTIONS', peer.BASEQ + '&sid=' + sid, headers=hdr))):
+                    w.run()
+                    n += 1
+                    for kind, text in judge_ack(req, ae, group['compression'], group['threshold'], b'OK' if what == 'POST' else None):
+                        out.append(report.Violation(
+                            {'impl': impl, 'kind': kind, 'trigger': 'encoding_ack'},
+                            '[%s compression=%s threshold=%d AE=%r %s acknowledgement] %s' % (impl, group['compression'], group['threshold'], ae, what, text),
+                            {'impl': impl, 'compression': group['compression'], 'threshold': group['threshold'],
+                             'case': [payloads, j, ae]}, weight=(0, 1)))
     finally:
         w.teardown()
     return n
@@ -177,7 +217,7 @@ def run(ctx):
         'rule': 'every message string of length <= %d over the %d-symbol alphabet %r x JSONP index {0,99}; '
                 'binary / JSON / multi-packet responses; bodies of exactly L bytes for L in {1,2,5,64,1024} x '
                 'threshold in {L-1,L,L+1,0,1024} x %d Accept-Encoding shapes x http_compression on/off x '
-                '{plain, JSONP}; on Server (WSGI) and AsyncServer (ASGI). Every case is a distinct '
+                '{plain, JSONP}, each plain poll followed by a POST and an OPTIONS with the same Accept-Encoding on the same server (their acknowledgements pass the same compression step); on Server (WSGI) and AsyncServer (ASGI). Every case is a distinct '
                 '(configuration, request, payload) triple.' % (3 if ctx.quick else 4, len(ALPHA), ALPHA, len(AE)),
         'samples': [{'payload': 'a"\\\n', 'j': 0}, {'payload': ' ', 'j': 99},
                     {'L': 64, 'threshold': 64, 'Accept-Encoding': 'deflate, gzip', 'compression': True}],
